@@ -1147,6 +1147,7 @@ class Interp:
         ctx = self.ctx
         name = '%s/loop#%s' % (frame.func.qual, self.loop_ordinal(st, frame))
         env = LoopEnv(self, frame)
+        env.node = st
         if step is not None:
             hid = sorted(n for n in step[0] if n.startswith(('__it_', '__idx_')))
             env.index_name = hid[0] if hid else None
@@ -1812,8 +1813,13 @@ class LoopEnv:
     def __contains__(self, k):
         return k in self.frame.locals
 
+    def eval(self, node):
+        """value of an expression of the loop (e.g. an operand of its condition, `env.node.test`) in the current state: lets an
+        invariant speak about WHAT the loop compares instead of naming the locals that happen to hold it"""
+        return self.interp.eval(node, self.frame)
+
     def __getattr__(self, k):
-        if k in ('interp', 'frame', 'index_name'):
+        if k in ('interp', 'frame', 'index_name', 'node'):
             raise AttributeError(k)
         return self.interp.load_name(k, self.frame)
 
